@@ -27,7 +27,7 @@ def run(c, chk):
     chk.assumptions = ['sequences of calls are not explored; see C10 for the rejected-update clause']
     n = c10.analyse(c, chk, 'R9.1', 'R9.1', funcs=MUTATORS)
     chk.analysed = {'mutators': len(MUTATORS), 'refusing_paths': n}
-    chk.floor('R9.1 refusing paths', n, 50)
+    chk.floor('R9.1 refusing paths', n, 30)
     ex = sym.Explorer(c.modules, max_visits=2, mod_sets=c.mod_sets, max_paths=50000)
 
     # ---- R9.2 --------------------------------------------------------------------------------
@@ -38,7 +38,9 @@ def run(c, chk):
         for p in ex.explore(fn):
             if p.end != 'ret':
                 continue
-            ai = [i for i, e in enumerate(p.events) if e.kind == 'call' and e.name == 'cfg_addlist_internal']
+            # the step that appends the elements: the shared worker, or (when it was folded in) the first typed setter
+            ai = [i for i, e in enumerate(p.events) if e.kind == 'call' and not e.inlined and e.name in
+                  ('cfg_addlist_internal', 'cfg_opt_setnint', 'cfg_opt_setnfloat', 'cfg_opt_setnbool', 'cfg_opt_setnstr')]
             if not ai:
                 continue
             n += 1
@@ -55,10 +57,10 @@ def run(c, chk):
         if bad:
             chk.fail('R9.2', '%s-reset:%s' % (kind, fname), c.where(fn), '%s() %s' % (fname, bad[1]), witness=[repr(e) for e in bad[0].events])
         elif n:
-            chk.ok('R9.2', fname, '%s entry: %s before cfg_addlist_internal() on %d paths'
+            chk.ok('R9.2', fname, '%s entry: %s before the elements are appended on %d paths'
                    % (kind, 'opt->flags &= ~CFGF_RESET' if kind == 'append' else 'cfg_free_value(opt)', n), sample=True)
         else:
-            raise report.Broken('%s(): no path reaches cfg_addlist_internal()' % fname)
+            raise report.Broken('%s(): no path reaches the element-appending step' % fname)
     # the setters' free-the-defaults branch exists (otherwise the rule above is moot)
     gv = c.need('cfg_opt_getval')
     has = any(True for p in ex.explore(gv) if p.end == 'ret' and any(e.kind == 'call' and e.name == 'cfg_free_value' for e in p.events))
@@ -144,24 +146,30 @@ def run(c, chk):
     # cfg_addlist_internal() can only fail on allocation failure: its dropped result is C18's (R18.3)
     nw = 0
     for fname in MUTATORS + ['cfg_addlist_internal']:
-        f = c.need(fname)
-        for call in f.calls():
+        f = c.func(fname) if fname == 'cfg_addlist_internal' else c.need(fname)
+        if f is None:
+            continue
+        for call in c.deep_calls(f):
             n_ = call.callee_name()
             if n_ in setters and n_ != fname:
+                if fname in ('cfg_setlist', 'cfg_addlist') and n_.startswith('cfg_opt_setn'):
+                    continue      # the element loop of the list wrappers (also when the shared worker is folded in): C18 R18.3
                 nw += 1
-                if result_used(f, call):
+                if result_used(call.func, call):
                     chk.ok('R9.4', '%s -> %s' % (fname, n_), 'result returned or tested', nontrivial=False)
                 else:
                     chk.fail('R9.4', 'dropped-result:%s:%s' % (fname, n_), c.where(call),
                              '%s() ignores the result of %s() and reports success regardless' % (fname, n_))
-    chk.floor('R9.4 wrapper call sites', nw, 15)
+    chk.floor('R9.4 wrapper call sites', nw, 10)
 
 
 def title_sites(c, ex):
     """{function: set of struct names whose flags word decides case folding of a title comparison}"""
     sites = {}
     for f in c.confuse.funcs.values():
-        if not any(True for _ in f.calls('strcasecmp')):
+        if f.name in c.unknown_funcs:
+            continue          # a helper is explored as part of the function it was split off
+        if not any(True for _ in c.deep_calls(f, 'strcasecmp')):
             continue
         for p in ex.explore(f):
             for e in p.events:
